@@ -494,7 +494,10 @@ class Ctx:
             "coverage": cov, "assumptions": assumptions,
             "wall_s": round(time.time() - self.t0, 2), "violations": len(self.violations),
         }
-        edir = os.environ.get("VERIF_EVIDENCE_DIR") or os.path.join(VERIF, "evidence")
+        edir = os.environ.get("VERIF_EVIDENCE_DIR")
+        if not edir:
+            # runs against a scratch tree (mutation self-tests) must not overwrite the real evidence
+            edir = os.path.join(VERIF, "evidence") if REPO == "/repo" else os.path.join(tempfile.gettempdir(), "verif-evidence-scratch")
         os.makedirs(edir, exist_ok=True)
         with open(os.path.join(edir, self.pid + ".json"), "w") as f:
             json.dump(ev, f, indent=1, default=str)
